@@ -190,3 +190,208 @@ func shortLabel(l string) string {
 	l = strings.TrimPrefix(l, "ddsketch/encoding.")
 	return l
 }
+
+// countingLoop describes `for i := init; i <op> bound; i += step { … }` recovered from SSA.
+type countingLoop struct {
+	Header   *ssa.BasicBlock
+	Blocks   map[*ssa.BasicBlock]bool
+	Phi      *ssa.Phi
+	Init     *Term
+	StepOne  bool   // i = i + 1
+	StepDown bool   // i = i - 1
+	Cond     *Term  // header condition with the induction variable written as `iv`
+	CondOp   string // as oriented by the term normal form: "<" or "<="
+	IVLeft   bool   // induction variable is the left operand of Cond
+	Bound    *Term  // the other operand
+	StayTrue bool   // the loop continues when Cond is true
+	BoundAdj int    // added to Bound (−1 for rotated `range` loops that test i+1)
+}
+
+// countingLoops recovers the counting loops of fn. tc must not be path-bound.
+func countingLoops(p *Program, fn *ssa.Function) []countingLoop {
+	var out []countingLoop
+	tc := newTermCtx(p)
+	for _, comp := range loopSCCs(fn) {
+		in := map[*ssa.BasicBlock]bool{}
+		for _, b := range comp {
+			in[b] = true
+		}
+		for _, h := range comp {
+			// header: has a predecessor outside the loop
+			outside := false
+			for _, pr := range h.Preds {
+				if !in[pr] {
+					outside = true
+				}
+			}
+			if !outside {
+				continue
+			}
+			iff, ok := h.Instrs[len(h.Instrs)-1].(*ssa.If)
+			if !ok {
+				continue
+			}
+			for _, ins := range h.Instrs {
+				phi, ok := ins.(*ssa.Phi)
+				if !ok || len(phi.Edges) != 2 {
+					continue
+				}
+				var init, next ssa.Value
+				for i, pr := range h.Preds {
+					if in[pr] {
+						next = phi.Edges[i]
+					} else {
+						init = phi.Edges[i]
+					}
+				}
+				if init == nil || next == nil {
+					continue
+				}
+				bo, ok := next.(*ssa.BinOp)
+				if !ok {
+					continue
+				}
+				one := func(v ssa.Value) bool {
+					c, ok := v.(*ssa.Const)
+					return ok && c.Value != nil && c.Value.ExactString() == "1"
+				}
+				cl := countingLoop{Header: h, Blocks: in, Phi: phi, Init: tc.Of(init)}
+				switch {
+				case bo.Op.String() == "+" && (bo.X == ssa.Value(phi) && one(bo.Y) || bo.Y == ssa.Value(phi) && one(bo.X)):
+					cl.StepOne = true
+				case bo.Op.String() == "-" && bo.X == ssa.Value(phi) && one(bo.Y):
+					cl.StepDown = true
+				default:
+					continue
+				}
+				// condition on the induction variable
+				cb, ok := iff.Cond.(*ssa.BinOp)
+				if !ok {
+					continue
+				}
+				var other ssa.Value
+				ivLeft := false
+				adj := 0
+				if cb.X == ssa.Value(phi) {
+					other, ivLeft = cb.Y, true
+				} else if cb.Y == ssa.Value(phi) {
+					other = cb.X
+				} else if cl.StepOne && cb.X == next {
+					// rotated range loop: tests i+1 < n, i.e. i < n-1
+					other, ivLeft, adj = cb.Y, true, -1
+				} else if cl.StepOne && cb.Y == next {
+					other, adj = cb.X, -1
+				} else {
+					continue
+				}
+				cl.BoundAdj = adj
+				op := cb.Op.String()
+				// orient as the term normal form does
+				switch op {
+				case ">":
+					op, ivLeft = "<", !ivLeft
+				case ">=":
+					op, ivLeft = "<=", !ivLeft
+				}
+				cl.CondOp, cl.IVLeft, cl.Bound = op, ivLeft, tc.Of(other)
+				cl.StayTrue = in[h.Succs[0]]
+				out = append(out, cl)
+			}
+		}
+	}
+	return out
+}
+
+// linAdd returns a+b*k for linear forms.
+func linCombine(a *Linear, b *Linear, k int) *Linear {
+	out := &Linear{Coef: map[string]int{}, Atoms: map[string]*Term{}, Exact: a.Exact && b.Exact, Const: a.Const + k*b.Const}
+	for key, v := range a.Coef {
+		out.Coef[key] += v
+		out.Atoms[key] = a.Atoms[key]
+	}
+	for key, v := range b.Coef {
+		out.Coef[key] += k * v
+		out.Atoms[key] = b.Atoms[key]
+	}
+	for key, v := range out.Coef {
+		if v == 0 {
+			delete(out.Coef, key)
+			delete(out.Atoms, key)
+		}
+	}
+	return out
+}
+
+// elementRange: for a counting loop (step +1) and the term of an element index used in its body,
+// the linear forms of the first and the last element index touched. ok=false if the index is not
+// affine in the induction variable with coefficient 1.
+func elementRange(l countingLoop, elemIdx *Term) (first, last *Linear, ok bool) {
+	if !l.StepOne || !l.StayTrue || !l.IVLeft {
+		return nil, nil, false
+	}
+	li := linearOf(elemIdx)
+	// the induction variable appears as the φ term (or "cycle") — identify it by ssa value
+	ivKey := ""
+	for k, t := range li.Atoms {
+		if t.V == ssa.Value(l.Phi) {
+			ivKey = k
+		}
+	}
+	if ivKey == "" || li.Coef[ivKey] != 1 {
+		return nil, nil, false
+	}
+	rest := &Linear{Coef: map[string]int{}, Atoms: map[string]*Term{}, Exact: true, Const: li.Const}
+	for k, v := range li.Coef {
+		if k != ivKey {
+			rest.Coef[k] = v
+			rest.Atoms[k] = li.Atoms[k]
+		}
+	}
+	init := linearOf(l.Init)
+	bound := linearOf(l.Bound)
+	first = linCombine(init, rest, 1)
+	last = linCombine(bound, rest, 1)
+	last.Const += l.BoundAdj
+	if l.CondOp == "<" {
+		last.Const--
+	}
+	return first, last, true
+}
+
+// windowForms: the linear forms minIndex−offset and maxIndex−offset of a dense-store receiver term.
+func isWindowRange(first, last *Linear, recvIs func(t *Term) bool) bool {
+	chk := func(l *Linear, fld string) bool {
+		if l.Const != 0 || len(l.Coef) != 2 {
+			return false
+		}
+		seenF, seenO := false, false
+		for k, v := range l.Coef {
+			t := l.Atoms[k].unver()
+			if t.Op != "field" || !recvIs(t.Args[0]) {
+				return false
+			}
+			if t.Sym == fld && v == 1 {
+				seenF = true
+			}
+			if t.Sym == "offset" && v == -1 {
+				seenO = true
+			}
+		}
+		return seenF && seenO
+	}
+	return chk(first, "minIndex") && chk(last, "maxIndex")
+}
+
+// isWholeArrayRange: 0 … len(x)−1
+func isWholeArrayRange(first, last *Linear) bool {
+	if len(first.Coef) != 0 || first.Const != 0 || last.Const != -1 || len(last.Coef) != 1 {
+		return false
+	}
+	for k, v := range last.Coef {
+		t := last.Atoms[k]
+		if v == 1 && t.Op == "builtin" && t.Sym == "len" {
+			return true
+		}
+	}
+	return false
+}
